@@ -65,6 +65,19 @@ CHECKS = {
         'note': TB + "unicodedata.lookup is a parameter. Open known finding KF-D21 (decoded backslash not normalised under FORCEWIN).",
         'technique': 'Lean 4 print/scan round-trip theorem with explicit adjacency side condition + exhaustive short-string correspondence',
     },
+    'C07': {
+        'text': "Theorems (Lean) over the models of compile_pattern / translate / _Match.match with the per-pattern matcher abstract "
+                "(so they compose with C01/C02) and bracex / WcSplit / tilde as parameters: for every successful call and every name, "
+                "the list matches iff the name matches some inclusion and no exclusion piece, where inclusions/exclusions are DEFINED by "
+                "complete expansion then sign (no seen-set, routing or limit); exclusions are compiled with DOTMATCH forced; order and "
+                "repetition never matter (Perm invariance); exclusions alone match nothing unless NEGATEALL; MINUSNEGATE; `!(` under "
+                "EXTMATCH is not a negation; exclude= equals inline negation under stated hypotheses (false for SPLIT with a top-level "
+                "`|` inside one exclusion — kernel witness); expansion order braces -> split -> tilde; WcSplit join/no-bar/print facts. "
+                "Ties K3 (WcSplit on all strings <= 6 over its alphabet) and K4 (lists through fnmatch/filter/compile/translate/"
+                "globmatch/globfilter: regex texts and match bits); search: list result == boolean combination of single-pattern real results.",
+        'note': TB + "bracex is a parameter under the contract BraceOK; per-pattern matching is C01/C02.",
+        'technique': 'Lean 4 list-algebra theorems (Perm invariance, refinement to a declarative spec) + split/list correspondence',
+    },
     'C08': {
         'text': "Theorems (Lean): capturing groups, (?:..) wrappers, laziness and class spellings are invisible to the regex "
                 "semantics; two regexes with equal Re.strip have the same full matches for EVERY subject (certificate). The check "
@@ -106,8 +119,35 @@ CHECKS = {
                 "RecursionError/interpreter limits are outside the model.",
         'technique': 'Lean 4 theorems on a faithful parser model + regex-text correspondence (K1) + API exception search',
     },
+    'C14': {
+        'text': "Theorems over a Lean model of WcMatch._walk (os.walk with in-place pruning, _valid_folder/_valid_file, hidden "
+                "rule, RECURSIVE/HIDDEN/SYMLINKS, poll sites, hooks) for ALL trees, ALL pattern-decision functions and ALL flag "
+                "records: results = (reachable tree).filter selected as exact sequences, no file twice, get_skipped = visited - "
+                "returned, empty-pattern rules, independence from link targets without SYMLINKS; generated facts about "
+                "_parse_flags/_compile_wildcard are proof obligations. Tied by stream K7 (recording subclass vs model on "
+                "generated real trees, decisions from fnmatch.fnmatch/glob.globmatch) and searched against the filtered walk "
+                "computed in Python and by the Lean spec.",
+        'note': "Trusted: Lean kernel; axioms propext/Classical.choice/Quot.sound only; tools/extract.py and the harness; os.walk/"
+                "os.scandir (abstracted as a finite tree read from the OS); the pattern decisions are parameters of the walk "
+                "model (their meaning is C01/C02/C07's business) and are supplied through the public fnmatch/globmatch API; "
+                "comparisons are assumed not to raise in C14 (raising overrides are C15's routing clause).",
+        'technique': 'Lean 4 theorems by structural induction on the tree + event-sequence correspondence (K7) + spec-vs-code search',
+    },
+    'C15': {
+        'text': "Theorems for ALL trees/configurations/hook tables and ALL monotone poll oracles (kill from a hook, between two "
+                "values, from a thread, before the start): yielded values are a prefix of the uninterrupted results (under "
+                "DirSilent: nothing yielded from inside the folder loop - true for the base-class on_error), at most one more "
+                "file after the first observing poll (exact bound per poll site), sticky abort, reset + re-run = fresh run, "
+                "on_reset once, counter, routing/value pass-through for EVERY oracle. Kernel-evaluated witnesses for the two "
+                "open findings D19 (mid-iteration reset, reading-dependent) and D20 (folder-loop on_error values + kill: not a "
+                "prefix). Tied by K7: every abort point of every generated tree, a raise at every hook position, exhaustive op "
+                "interleavings on one object, kill() from a second thread.",
+        'note': "Trusted: Lean kernel; axioms propext/Classical.choice/Quot.sound only; the harness; os.walk; the GIL (flag reads/"
+                "writes are atomic); hooks are functions of (base, name); exceptions from on_match/on_skip/on_error/on_reset "
+                "propagate and are checked on the real code only; one live generator per object in the op-interleaving stream.",
+        'technique': 'Lean 4 theorems (prefix/overshoot invariants over a poll-oracle model, op-sequence induction) + K7 correspondence + property search on the real code',
+    },
 }
 
 NOT_APPLICABLE = {k: 'check not built yet in this session (model/proofs in progress); no claim is made' for k in
-                  [ 'C04', 'C05', 'C07', 'C09', 'C12', 'C14', 'C15',
-                   'C16', 'C17', 'C18', 'C19']}
+                  [ 'C04', 'C05', 'C09', 'C12', 'C16', 'C17', 'C18', 'C19']}
